@@ -101,6 +101,7 @@ def gen_case(rng, i, nprocs, EC):
     p.close()
     p.emit("*", "barrier")
     p.emit(0, "snapshot", path="s:@OUT@/c16.nc", tag="final")
+    p.emit("*", "balance", final=1)
     fills = tuple(sorted(set((v.isrec, v.nofill, v.fillval is not None) for v in p.fm.vars)))
     return Case("c16_%05d" % i, nprocs, p.s.lines, meta={"expect": p.expect, "fm": p.fm, "feat": p.feat | {("fills", fills, nprocs)}, "nel": p.nelems_checked})
 
